@@ -18,7 +18,10 @@ import (
 	"os"
 	"path/filepath"
 	"regexp"
+	"runtime"
 	"strings"
+	"sync"
+	"sync/atomic"
 	"time"
 
 	"verif/tgen"
@@ -196,7 +199,7 @@ func sameBytes() (renders int) {
 
 // ---------- part 2 ----------
 
-type params struct{ elem, attr, text, place, order, ws int }
+type params struct{ elem, attr, text, place, order, ws, xs int }
 
 var (
 	elems = []string{"div", "a", "span", "form"}
@@ -204,7 +207,9 @@ var (
 	texts = []string{"hello", "bye", ""}
 	// textcall and gocall hold the same expression text, once rendered and once as a raw Go statement: an edit
 	// between them changes neither the literals nor any expression string, only how the expression is used
-	places = []string{"text", "attr2", "script", "none", "root", "textcall", "gocall", "comment"}
+	// spellings of the first expression: the last two are the same Go code for gofmt, different texts for the parser
+	xSpellings = []string{"x", "x+\"!\"", "x + \"!\""}
+	places     = []string{"text", "attr2", "script", "none", "root", "textcall", "gocall", "comment"}
 )
 
 func (p params) src() string {
@@ -212,7 +217,7 @@ func (p params) src() string {
 	var open strings.Builder
 	open.WriteString("<" + el)
 	if a := attrs[p.attr]; a != "" {
-		open.WriteString(" " + a + "={ x }")
+		open.WriteString(" " + a + "={ " + xSpellings[p.xs] + " }")
 	}
 	if places[p.place] == "attr2" {
 		open.WriteString(" id={ y }")
@@ -254,7 +259,7 @@ func (p params) src() string {
 }
 
 func (p params) String() string {
-	return fmt.Sprintf("<%s %s={x}> text=%q y-in-%s order=%d ws=%d", elems[p.elem], attrs[p.attr], texts[p.text], places[p.place], p.order, p.ws)
+	return fmt.Sprintf("<%s %s={%s}> text=%q y-in-%s order=%d ws=%d", elems[p.elem], attrs[p.attr], xSpellings[p.xs], texts[p.text], places[p.place], p.order, p.ws)
 }
 
 var writeLit = regexp.MustCompile(`(templruntime\.WriteString\(templ_7745c5c3_Buffer, \d+, )"(?:[^"\\]|\\.)*"\)`)
@@ -272,13 +277,19 @@ type candidate struct {
 }
 
 func edits(full bool) (states, transitions int, cands []candidate) {
-	doms := []int{2, 6, 2, 7, 2, 1}
+	doms := []int{2, 6, 2, 7, 2, 1, 2}
 	if full {
-		doms = []int{len(elems), len(attrs), len(texts), len(places), 2, 2}
+		doms = []int{len(elems), len(attrs), len(texts), len(places), 2, 2, len(xSpellings)}
 	}
 	dir := filepath.Join(tgen.Scratch(), "edits")
+	if st, err := os.Stat("/dev/shm"); err == nil && st.IsDir() {
+		// tens of thousands of small file writes: a memory file system where there is one (removed at the end)
+		if d, err := os.MkdirTemp("/dev/shm", "verif-c16-"); err == nil {
+			dir = d
+			defer os.RemoveAll(d)
+		}
+	}
 	os.MkdirAll(dir, 0o755)
-	file := filepath.Join(dir, "t.templ")
 	genCache := map[params]string{}
 	gen := func(p params) (string, bool) {
 		if s, ok := genCache[p]; ok {
@@ -291,6 +302,8 @@ func edits(full bool) (states, transitions int, cands []candidate) {
 		genCache[p] = code
 		return code, code != ""
 	}
+	// quick: the two spellings that differ for the parser only; thorough: also the bare x
+	xsFrom := len(xSpellings) - doms[6]
 	var all []params
 	for e := 0; e < doms[0]; e++ {
 		for a := 0; a < doms[1]; a++ {
@@ -298,8 +311,13 @@ func edits(full bool) (states, transitions int, cands []candidate) {
 				for pl := 0; pl < doms[3]; pl++ {
 					for o := 0; o < doms[4]; o++ {
 						for w := 0; w < doms[5]; w++ {
-							if p := (params{e, a, t, pl, o, w}); func() bool { _, ok := gen(p); return ok }() {
-								all = append(all, p)
+							for x := xsFrom; x < len(xSpellings); x++ {
+								if attrs[a] == "" && x != xsFrom {
+									continue // no first expression to spell
+								}
+								if p := (params{e, a, t, pl, o, w, x}); func() bool { _, ok := gen(p); return ok }() {
+									all = append(all, p)
+								}
 							}
 						}
 					}
@@ -307,77 +325,210 @@ func edits(full bool) (states, transitions int, cands []candidate) {
 			}
 		}
 	}
+	valid := map[params]bool{}
+	for _, p := range all {
+		valid[p] = true
+	}
 	neighbours := func(p params) []params {
 		var out []params
-		v := []int{p.elem, p.attr, p.text, p.place, p.order, p.ws}
+		v := []int{p.elem, p.attr, p.text, p.place, p.order, p.ws, p.xs}
+		mk := func(q []int) {
+			n := params{q[0], q[1], q[2], q[3], q[4], q[5], q[6]}
+			if valid[n] && n != p {
+				out = append(out, n)
+			}
+		}
 		for f := range v {
-			for x := 0; x < doms[f]; x++ {
+			lo := 0
+			if f == 6 {
+				lo = xsFrom
+			}
+			for x := lo; x < lo+doms[f]; x++ {
 				if x != v[f] {
 					q := append([]int{}, v...)
 					q[f] = x
-					n := params{q[0], q[1], q[2], q[3], q[4], q[5]}
-					if _, ok := gen(n); ok {
-						out = append(out, n)
+					if f == 1 && attrs[x] == "" {
+						q[6] = xsFrom
+					}
+					mk(q)
+					// one save that renames the element or the attribute AND re-spells the expression
+					if (f == 0 || f == 1) && attrs[q[1]] != "" {
+						for xs := xsFrom; xs < len(xSpellings); xs++ {
+							if xs != v[6] {
+								q2 := append([]int{}, q...)
+								q2[6] = xs
+								mk(q2)
+							}
+						}
 					}
 				}
 			}
 		}
 		return out
 	}
-	// decide runs the real handler: history, then the edit; returns GoUpdated of the edit.
-	decide := func(history []params, nx params) bool {
-		h := generatecmd.NewFSEventHandler(quiet, dir, true, nil, false, true, func(string, []byte) error { return nil }, false)
-		for _, p := range history {
-			writeAt(file, p.src())
-			if _, err := h.HandleEvent(context.Background(), fsnotify.Event{Name: file, Op: fsnotify.Write}); err != nil {
-				vlib.Fatal("replay: %v", err)
-			}
-		}
-		writeAt(file, nx.src())
-		res, err := h.HandleEvent(context.Background(), fsnotify.Event{Name: file, Op: fsnotify.Write})
-		transitions++
+	// a session is one real handler with its own directory; step applies one saved version and returns GoUpdated
+	type session struct {
+		h    *generatecmd.FSEventHandler
+		file string
+	}
+	var transitionsA atomic.Int64
+	newSession := func(dir string) *session {
+		return &session{generatecmd.NewFSEventHandler(quiet, dir, true, nil, false, true, func(string, []byte) error { return nil }, false), filepath.Join(dir, "t.templ")}
+	}
+	var clockMu sync.Mutex
+	step := func(s *session, p params) bool {
+		clockMu.Lock()
+		writeAt(s.file, p.src())
+		clockMu.Unlock()
+		res, err := s.h.HandleEvent(context.Background(), fsnotify.Event{Name: s.file, Op: fsnotify.Write})
+		transitionsA.Add(1)
 		if err != nil {
-			vlib.Fatal("HandleEvent on %s: %v", nx, err)
+			vlib.Fatal("HandleEvent on %s: %v", p, err)
 		}
 		return res.GoUpdated
 	}
-	// 1. the decision of every single edit, taken by the real handler
-	dec := map[[2]params]bool{}
-	for _, cur := range all {
-		for _, nx := range neighbours(cur) {
-			dec[[2]params{cur, nx}] = decide([]params{cur}, nx)
-		}
+	workers := runtime.NumCPU()
+	wdir := func(g int) string {
+		d := filepath.Join(dir, fmt.Sprintf("w%d", g))
+		os.MkdirAll(d, 0o755)
+		return d
 	}
-	// 2. the decision depends on the previous version only (this is what lets the search below run to
-	// closure): validated on every two-edit history from a slice of the initial templates
+	// 1. the decision of every single edit, taken by the real handler that has seen the previous version only
+	dec := map[[2]params]bool{}
+	{
+		var mu sync.Mutex
+		var wg sync.WaitGroup
+		for g := 0; g < workers; g++ {
+			g := g
+			wg.Add(1)
+			go func() {
+				defer wg.Done()
+				d := wdir(g)
+				for i := g; i < len(all); i += workers {
+					for _, nx := range neighbours(all[i]) {
+						s := newSession(d)
+						step(s, all[i])
+						r := step(s, nx)
+						mu.Lock()
+						dec[[2]params{all[i], nx}] = r
+						mu.Unlock()
+					}
+				}
+			}()
+		}
+		wg.Wait()
+	}
+	// 2. real sessions that between them contain every three consecutive versions (a, b, c) of the edit graph:
+	// each worker walks on from (b, c) to an unvisited (b, c, d) for as long as it can, so sessions are long edit
+	// histories. In every session the version the running program was last compiled from is tracked with the
+	// handler's REAL decisions; whenever it lags behind the source, that state is executed (confirm). A decision
+	// that differs from the one taken after the previous version alone is counted: the closure search of step 3
+	// assumes there is none.
 	indepChecked, historyDependent := 0, 0
 	seenCand := map[[2]params]bool{}
-	for i, p0 := range all {
-		if (!full && i%8 != 0) || (full && i%48 != 0) {
-			continue
-		}
-		for _, p1 := range neighbours(p0) {
-			for _, p2 := range neighbours(p1) {
-				indepChecked++
-				if d2 := decide([]params{p0, p1}, p2); d2 != dec[[2]params{p1, p2}] {
-					// the decision depends on more than the previous version: the closure below is then not the whole
-					// story, so this concrete history is followed by hand and its lagging state, if any, is executed
-					historyDependent++
-					if historyDependent == 1 {
-						run.Capped(fmt.Sprintf("the handler's decision for %s → %s depends on older history (%s): histories longer than two edits are covered by the pairwise closure only approximately", p1, p2, p0))
-					}
-					compiled := p0
-					if dec[[2]params{p0, p1}] {
-						compiled = p1
-					}
-					if !d2 && compiled != p2 && !seenCand[[2]params{compiled, p2}] {
-						seenCand[[2]params{compiled, p2}] = true
-						cands = append(cands, candidate{compiled, p2, p0.String() + " → " + p1.String() + " → " + p2.String()})
-					}
+	{
+		type triple struct{ a, b, c params }
+		var mu sync.Mutex
+		visited := map[triple]bool{}
+		var starts []triple
+		for i, p0 := range all {
+			if full && i%6 != 0 {
+				continue // thorough: every sixth template starts sessions (the walks still wander everywhere)
+			}
+			for _, p1 := range neighbours(p0) {
+				for _, p2 := range neighbours(p1) {
+					starts = append(starts, triple{p0, p1, p2})
 				}
 			}
 		}
+		next := 0
+		sessions, longest := 0, 0
+		var wg sync.WaitGroup
+		for g := 0; g < workers; g++ {
+			g := g
+			wg.Add(1)
+			go func() {
+				defer wg.Done()
+				d := wdir(g)
+				for {
+					mu.Lock()
+					for next < len(starts) && visited[starts[next]] {
+						next++
+					}
+					if next >= len(starts) {
+						mu.Unlock()
+						return
+					}
+					t := starts[next]
+					visited[t] = true
+					sessions++
+					mu.Unlock()
+					s := newSession(d)
+					step(s, t.a)
+					compiled := t.a
+					hist := []string{t.a.String()}
+					length := 1
+					prev, cur := t.a, t.b
+					apply := func(p params, check bool) {
+						r := step(s, p)
+						hist = append(hist, p.String())
+						if len(hist) > 6 {
+							hist = hist[len(hist)-6:]
+						}
+						length++
+						mu.Lock()
+						if check {
+							indepChecked++
+							if r != dec[[2]params{cur, p}] {
+								historyDependent++
+								if historyDependent == 1 {
+									run.Capped(fmt.Sprintf("the handler's decision for %s → %s depends on older history (… %s): the closure over pairs of versions is then an approximation; the sessions of step 2 are exact", cur, p, strings.Join(hist, " → ")))
+								}
+							}
+						}
+						if r {
+							compiled = p
+						} else if compiled != p && !seenCand[[2]params{compiled, p}] {
+							seenCand[[2]params{compiled, p}] = true
+							cands = append(cands, candidate{compiled, p, "… " + strings.Join(hist, " → ")})
+						}
+						mu.Unlock()
+					}
+					apply(t.b, false)
+					prev, cur = t.a, t.b
+					apply(t.c, true)
+					prev, cur = t.b, t.c
+					for {
+						var nx *params
+						mu.Lock()
+						for _, cnd := range neighbours(cur) {
+							cnd := cnd
+							if !visited[triple{prev, cur, cnd}] {
+								visited[triple{prev, cur, cnd}] = true
+								nx = &cnd
+								break
+							}
+						}
+						mu.Unlock()
+						if nx == nil || length > 400 {
+							break
+						}
+						apply(*nx, true)
+						prev, cur = cur, *nx
+					}
+					mu.Lock()
+					if length > longest {
+						longest = length
+					}
+					mu.Unlock()
+				}
+			}()
+		}
+		wg.Wait()
+		run.Cov["edit_sessions_on_one_handler"] = sessions
+		run.Cov["longest_edit_session"] = longest
 	}
+	transitions += int(transitionsA.Load())
 	run.Cov["history_independence_checks"] = indepChecked
 	run.Cov["history_dependent_decisions"] = historyDependent
 	// 3. breadth-first closure over (last compiled, current) — edit sequences of any length
@@ -619,7 +770,7 @@ func main() {
 	run.Cov["dev_vs_normal_renders"] = renders
 	run.Cov["state_key"] = "(template at the last GoUpdated=true, current template); every transition replays the history on a fresh real FSEventHandler in development mode and applies one parameter edit"
 	run.Sample(map[string]any{"edit": "<div title={x}> → <div style={x}>", "expect": "recompilation needed: the style attribute goes through the CSS sanitiser"})
-	run.Sample(map[string]any{"template": params{1, 3, 0, 2, 0, 0}.src()})
+	run.Sample(map[string]any{"template": params{1, 3, 0, 2, 0, 0, 1}.src()})
 	run.Assumption("equal code shape (generated Go with literal texts blanked and error positions masked) is a sufficient condition for 'old binary + new text == new build'; every reachable state in which the compiled version lags behind the source is executed: the old code with the new text file must render what the new code renders in normal mode")
 	run.Assumption("text files carry mtimes far in the past so that the 100 ms freshness shortcut of the development-mode cache is not involved")
 	run.Finish(transitions+renders, states, "part 1: every static-text token (quotes, backslash, controls, CR, non-ASCII, format verbs, braces) in 6 static positions, rendered in both modes × 2 valuations; part 2: product space of templates (element × dynamic attribute name × static text × position of a second expression × order × spacing), every history of ≤ 2 single-parameter edits from every template; distinct = (compiled, current) states")
